@@ -44,9 +44,15 @@ SuspensionHasBuffer(e) == /\ (e.st = ShortRead => HasSrc(e))
 
 NoAllocInCall(e) == e.al = 0
 
+\* C01 on std (hook H3, the "checked build"): during the call no run-time assertion of a range that the compiler
+\* derived at compile time (the MBounds of an index, slice bound, non-modular arithmetic result, conversion,
+\* divisor, shift amount, argument, stored or returned value) failed.  Events of the other builds carry no
+\* "range_viol" field and satisfy the clause vacuously.
+ClaimedRangesHold(e) == ("range_viol" \in DOMAIN e) => (e.range_viol = 0)
+
 ClauseNames == {"IdxOrdered", "SrcRiMonotone", "DstWiMonotone", "SrcUnchanged", "DstPrefixUnchanged",
                 "DstRiUnchanged", "StatusClassLegal", "NoInternalError", "ShortReadJustified",
-                "ShortWriteJustified", "SuspensionHasBuffer", "NoAllocInCall"}
+                "ShortWriteJustified", "SuspensionHasBuffer", "NoAllocInCall", "ClaimedRangesHold"}
 
 Holds(name, e, ample) ==
     CASE name = "IdxOrdered" -> IdxOrdered(e)
@@ -61,6 +67,7 @@ Holds(name, e, ample) ==
       [] name = "ShortWriteJustified" -> ShortWriteJustified(e, ample)
       [] name = "SuspensionHasBuffer" -> SuspensionHasBuffer(e)
       [] name = "NoAllocInCall" -> NoAllocInCall(e)
+      [] name = "ClaimedRangesHold" -> ClaimedRangesHold(e)
 
 Violated(e, ample) == { c \in ClauseNames : ~Holds(c, e, ample) }
 
